@@ -994,7 +994,7 @@ def markerIf (b : Bool) : Str := if b then ['<', '!', '>'] else []
 /-- do primitive children (`char`, numbers, …; view/primitives.rs) honour the `escape` flag?  `false`: the
 code as it is (`write!(buf, "{}", self)` whatever the flag: F-C06-7); `true`: after hooks/fix-c06-5.patch
 (`encode_text` of the Display text when escaping).  Flip when the fix is applied. -/
-def primEscaped : Bool := false
+def primEscaped : Bool := true
 
 mutual
 def vHtml (escape : Bool) (pos : Pos) : VNode → Str
